@@ -126,7 +126,10 @@ class Inference:
             t = m.tensors[ti]
             o = offs[ti]
             if o < 0:
-                self.v(prop="C12", oracle="input_not_in_arena", tensor=ti)
+                # no offline placement (-1: allocated by the runtime on line).  That is only wrong for a tensor an Ethos-U
+                # operator addresses through its scratch region; an input nobody reads needs no place at all
+                if any(ti in e_["fm_inputs"] for e_ in plan.eops.values()):
+                    self.v(prop="C12", oracle="input_not_in_arena", tensor=ti)
                 continue
             arena[o:o + t.nbytes()] = owner(ti)
             defined[ti] = np.ones(t.nbytes(), bool)
@@ -431,10 +434,16 @@ class ValueRun:
             t = m.tensors[ti]
             if t.data is not None:
                 return t.const()
+            if ti in online:
+                return online[ti].astype(t.dtype).reshape(t.shape)
             o = offs[ti]
             return arena[o:o + t.nbytes()].view(t.dtype).reshape(t.shape).copy()
 
+        online = {}
         for ti, v in zip(m.inputs, inputs):
+            if offs[ti] < 0:
+                online[ti] = np.asarray(v)  # allocated by the runtime itself, outside the offline plan
+                continue
             put(ti, v)
         it = refint.Interp(m)
         for op in m.ops:
